@@ -177,3 +177,77 @@ def ids_unique(c):
     same id are the same object"""
     return ('all(implies(a._job == b._job and a._cache == %s and b._cache == %s, a == b) '
             'for a in refs("Job") for b in refs("Job"))' % (c, c))
+
+
+# ---- submission ----------------------------------------------------------------
+
+def ext_taskqueue_put(ex, args, kw):
+    """self._taskqueue.put(item): an unbounded queue.Queue -- never blocks, never raises"""
+    gset(ex, 'submitted', SV(IntS, gget(ex, 'submitted').e + 1))
+    return SNone()
+
+
+def ext_quick_put(ex, args, kw):
+    """self._quick_put(msg) (threads=False): the message is written to the
+    task pipe, or the send raises (unpicklable task, broken pipe)"""
+    me = ex.root.scopes[0].get('self')
+    fn = args[0]
+    qp = ex.path.read_field(me, '_quick_put') if me is not None else None
+    if qp is None or not ex.path.decide(fn.e == qp.e):
+        import handles
+        return handles.ext_callable(ex, args, kw)
+    if ex.path.choose(2) == 1:
+        raise_exc(ex, 'AnyException')
+    gset(ex, 'submitted', SV(IntS, gget(ex, 'submitted').e + 1))
+    return SNone()
+
+
+def declare_submission(w):
+    P = w.classes['Pool']
+    P.fields.update({'_taskqueue': ValS, '_quick_put': ValS, 'on_timeout_set': opt(ValS),
+                     'on_timeout_cancel': opt(ValS), '_timeout_handler': opt(ValS)})
+    w.classes['g'].fields.update({'submitted': IntS, 'acquires': IntS})
+
+
+def apply_async_contract(prop):
+    import handles as H
+    eff = '(self.putlocks if waitforslot is None else waitforslot)'
+    return Contract(
+        'pool.Pool.apply_async', prop=prop,
+        params={'self': ref('Pool'), 'func': ValS, 'args': ValS, 'kwds': ValS, 'callback': opt(ValS),
+                'error_callback': opt(ValS), 'accept_callback': opt(ValS), 'timeout_callback': opt(ValS),
+                'waitforslot': opt(BoolS), 'soft_timeout': opt(RealS), 'timeout': opt(RealS),
+                'lost_worker_timeout': opt(RealS), 'callbacks_propagate': ValS, 'correlation_id': ValS},
+        externals={'<opaque>.put': ext_taskqueue_put, '<callable>': ext_quick_put,
+                   'pool.Pool._start_timeout_handler': lambda ex, a, k: SNone()},
+        returns=opt(ref('Job')),
+        requires={'fresh_ids': 'not has(self._cache, g.next_job)', 'cache': 'allocated(self._cache)',
+                  'sem': 'self._putlock is None or (allocated(val(self._putlock)) and val(self._putlock)._value >= 0 '
+                         'and val(self._putlock)._value <= val(self._putlock)._initial_value)',
+                  'limits_positive': '(timeout is None or timeout >= 0) and (soft_timeout is None or soft_timeout >= 0)'},
+        modifies=['Job.*', 'self._cache.has', 'self._cache.val', 'self._cache.size', 'g.next_job', 'Event.flag',
+                  'Sem._value', 'g.acquires', 'g.submitted', 'g.ncalls', 'g.cb_raised'],
+        lets={'running': 'old(self._state) == 0',
+              'takes_slot': 'old(self._state) == 0 and %s and self._putlock is not None' % eff},
+        ensures={
+            # C07: jobs offered after close() are not accepted
+            'not_accepted_unless_running': 'implies(not running, result is None and only_key_changed(self._cache) '
+                                           'and g.submitted == old(g.submitted) and g.acquires == old(g.acquires))',
+            'accepted_when_running': 'implies(running, result is not None and fresh(val(result)) and '
+                                     'has(self._cache, val(result)._job) and g.submitted == old(g.submitted) + 1)',
+            # C10: the slot is taken before the job exists, exactly one per job
+            'one_slot_per_job': 'g.acquires == old(g.acquires) + ite(takes_slot, 1, 0)',
+            # C05 / C06: a per-job limit takes precedence over the pool default
+            'per_job_hard_limit_takes_precedence': 'implies(running, val(result)._timeout == '
+                                                   '(timeout if (timeout is not None and timeout != 0) else self.timeout))',
+            'per_job_soft_limit_takes_precedence': 'implies(running, val(result)._soft_timeout == '
+                                                   '(soft_timeout if (soft_timeout is not None and soft_timeout != 0) else self.soft_timeout))',
+            'lost_timeout_defaulted': 'implies(running, val(result)._lost_worker_timeout == '
+                                      '(val(lost_worker_timeout) if (lost_worker_timeout is not None and lost_worker_timeout != 0) '
+                                      'else self.lost_worker_timeout))',
+        },
+        raises={'AnyException': {
+            # the send failed (threads=False): the slot taken for this job must not stay taken
+            'slot_given_back_when_send_fails': 'g.acquires == old(g.acquires)',
+        }},
+    )
